@@ -63,6 +63,19 @@ def ref_need_per_head(code, species, livestock_unit):
     return livestock_unit * one_lsu * _lsu["factor"][(region, species)]
 
 
+_attrs = {}
+
+
+def species_attributes(animal_type):
+    """(livestock units, slaughter hours, size class, digestion type) of a species as tabulated in the shipped species_attributes.csv"""
+    import pandas as pd
+    if not _attrs:
+        t = pd.read_csv("data/no_food_trade/animal_feed_data/species_attributes.csv", index_col="animal")
+        for a, row in t.iterrows():
+            _attrs[a] = (float(row["LSU"]), float(row["animal_slaughter_hours"]), str(row["animal size"]), str(row["digestion type"]))
+    return _attrs[animal_type]
+
+
 class FeedLog:
     """wraps AnimalPopulation.feed_animals: inputs and outcomes of every monthly feeding"""
 
